@@ -424,7 +424,7 @@ def r03_8(run):
             run.ob('R03.8', mi, t.ast, 'only the in-flight slot and the queue decide whether the next command is taken', on_slot_or_queue, slot='pop-skipped-by:%s' % txt[:30],
                    message='_maybe_issue_command returns without taking the next command when %s is %s: a command submitted after the loss (connectionLost has run, '
                            'nothing will call this again) stays queued and its Deferred never fires' % (txt[:60], lab == 'T'))
-    run.floor('R03.8', 'ways out of _maybe_issue_command before the pop', k, 2)
+    run.floor('R03.8', 'ways out of _maybe_issue_command before the pop', k, 1)
 
 
 def r03_9(run):
